@@ -3,7 +3,7 @@ use futures::Stream;
 use parking_lot::Mutex;
 
 use std::cmp::Ordering;
-use std::collections::{BinaryHeap, HashMap};
+use std::collections::{BinaryHeap, HashMap, HashSet};
 use std::hash::Hash;
 use std::pin::Pin;
 use std::sync::atomic;
@@ -110,12 +110,25 @@ where
     #[allow(clippy::needless_continue)]
     fn poll_next(self: Pin<&mut Self>, cx: &mut Context<'_>) -> Poll<Option<Self::Item>> {
         let fair_queue = self.get_mut();
+        // A stream may wake itself while it is being polled and still return Pending: a
+        // transport that yields cooperatively does so until its task goes back to the
+        // executor. Such a stream is ready again at once, so every stream gets one turn per
+        // call: a stream that comes up again after it returned Pending keeps a single ready
+        // event for the next call, and the task is woken instead of polling the same stream
+        // over and over.
+        let mut had_turn: HashSet<K> = HashSet::new();
+        let mut next_call: Vec<ReadyEvent<K>> = Vec::new();
         loop {
             let (event, connection_id, mut io_stream) = {
                 let mut inner = fair_queue.inner.lock();
                 inner.waker = Some(cx.waker().clone());
                 let event = match inner.ready_queue.pop() {
                     Some(s) => s,
+                    None if !next_call.is_empty() => {
+                        inner.ready_queue.extend(next_call);
+                        cx.waker().wake_by_ref();
+                        return Poll::Pending;
+                    }
                     None => {
                         return if !inner.streams.is_empty() || fair_queue.block_on_no_clients {
                             Poll::Pending
@@ -124,6 +137,12 @@ where
                         }
                     }
                 };
+                if had_turn.contains(&event.key) {
+                    if !next_call.iter().any(|e| e.key == event.key) {
+                        next_call.push(event);
+                    }
+                    continue;
+                }
                 match inner.streams.remove(&event.key) {
                     Some((connection_id, stream)) => (event, connection_id, stream),
                     None => continue,
@@ -146,6 +165,7 @@ where
                         key: event.key.clone(),
                     });
                     inner.streams.insert(event.key, (connection_id, io_stream));
+                    inner.ready_queue.extend(next_call);
                     return Poll::Ready(item);
                 }
                 Poll::Ready(None) => {
@@ -157,7 +177,8 @@ where
                 }
                 Poll::Pending => {
                     let mut inner = fair_queue.inner.lock();
-                    inner.streams.insert(event.key, (connection_id, io_stream));
+                    inner.streams.insert(event.key.clone(), (connection_id, io_stream));
+                    had_turn.insert(event.key);
                     continue;
                 }
             }
